@@ -16,6 +16,10 @@ from comm.platform import Platform       # noqa: E402
 
 
 class _NoSleep:
+    """stands in for the ``time`` module where the protocol module imported it: sleep returns at
+    once, the wall clock stands still; anything else the code under test may come to use
+    (monotonic, perf_counter, strftime ...) is the real module's."""
+
     def __init__(self):
         self.slept = 0.0
 
@@ -24,6 +28,10 @@ class _NoSleep:
 
     def time(self):
         return 1700000000.0
+
+    def __getattr__(self, name):
+        import time as _t
+        return getattr(_t, name)
 
 
 _CURRENT = {"world": None}
